@@ -368,7 +368,12 @@ def main():
     print(f"{len(checks)} checks, {len(na)} unclaimed")
 
 
-NOT_APPLICABLE = {}
+NOT_APPLICABLE = {
+    "C05": ("the deciding component is the Linux eBPF verifier, outside the repository: a Gallina model able to decide acceptance would be a "
+            "re-implementation of the verifier that could only be validated by differential testing against the kernel, so a theorem about it "
+            "would add nothing over loading the programs; what a proof can carry (no out-of-bounds access in the ISA model, locals inside the stack, "
+            "packet accesses inside the guard) is part of C04 / C07 / C09; see DESIGN.md section 7"),
+}
 
 if __name__ == "__main__":
     main()
